@@ -4,7 +4,7 @@ fresh zero value of a given Go type.  Follows the code's order of tests; defects
 -/
 import Model.Marshal
 namespace Marshal
-open ValueSpec (Bytes CqlTy beBytes beNat)
+open ValueSpec (Bytes CqlTy beBytes beNat shorter)
 
 /-! ## zero values and goType -/
 
@@ -167,16 +167,16 @@ def unmarshalScalar (t : CqlTy) (isNil : Bool) (d : Bytes) (ty : GoTy) : URes :=
 /-- readCollectionSize: (size, rest) or error -/
 def readCollSize (p : Nat) (data : Bytes) : Option (Int × Bytes) :=
   if p > 2 then
-    (if data.length < 4 then none else some (decInt (data.take 4), data.drop 4))
+    (if shorter data 4 then none else some (decInt (data.take 4), data.drop 4))
   else
-    (if data.length < 2 then none else some ((beNat (data.take 2) : Int), data.drop 2))
+    (if shorter data 2 then none else some ((beNat (data.take 2) : Int), data.drop 2))
 
 /-- one element of unmarshalList / unmarshalMap: (unmarshalData, rest) or error -/
 def readCollItem (p : Nat) (data : Bytes) : Option (Option Bytes × Bytes) :=
   match readCollSize p data with
   | none => none
   | some (m, r) =>
-    if m ≥ 0 then (if r.length < m.toNat then none else some (some (r.take m.toNat), r.drop m.toNat))
+    if m ≥ 0 then (if shorter r m.toNat then none else some (some (r.take m.toNat), r.drop m.toNat))
     else some (none, r)
 
 inductive LRes (α : Type)
@@ -216,7 +216,7 @@ def readBytesM (data : Bytes) : Option (Option Bytes × Bytes) :=
   let size := decInt (data.take 4)
   let r := data.drop 4
   if size < 0 then some (none, r)
-  else if r.length < size.toNat then none
+  else if shorter r size.toNat then none
   else some (some (r.take size.toNat), r.drop size.toNat)
 
 /-- strip the pointers of a nullable target: (depth, base) -/
@@ -342,7 +342,7 @@ def unmarshalBase (p : Nat) : CqlTy → GoTy → Option Bytes → URes
 /-- `case []interface{}`: `Unmarshal(elem, p, v[i])` for each tuple element; p = nil once fewer than 4 bytes remain -/
 def unmarshalTupleScan (p : Nat) : List CqlTy → List GoTy → Bytes → LRes (List GoVal)
   | t :: ts, g :: gs, data =>
-    (match (if data.length ≥ 4 then readBytesM data else some (none, data)) with
+    (match (if !(shorter data 4) then readBytesM data else some (none, data)) with
      | none => .crash
      | some (item, r) => (match withPtr (unmarshalBase p t) g item with
         | .ok v => (match unmarshalTupleScan p ts gs r with
@@ -354,7 +354,7 @@ def unmarshalTupleScan (p : Nat) : List CqlTy → List GoTy → Bytes → LRes (
 /-- struct / slice / array targets: decode into goType(elem), then `Set` the field (types must match) -/
 def unmarshalTupleSet (p : Nat) : List CqlTy → List GoTy → Bytes → LRes (List GoVal)
   | t :: ts, g :: gs, data =>
-    (match (if data.length ≥ 4 then readBytesM data else some (none, data)) with
+    (match (if !(shorter data 4) then readBytesM data else some (none, data)) with
      | none => .crash
      | some (item, r) => (match withPtr (unmarshalBase p t) (goTypeOf t) item with
         | .ok v =>
@@ -381,7 +381,7 @@ def unmarshalTupleSet (p : Nat) : List CqlTy → List GoTy → Bytes → LRes (L
 def unmarshalUdtMap (p : Nat) : List String → List CqlTy → Bytes → LRes (List GoVal)
   | _ :: names, t :: ts, data =>
     if data = [] then .ok [] data
-    else if data.length < 4 then .err
+    else if shorter data 4 then .err
     else (match readBytesM data with
      | none => .crash
      | some (item, r) => (match withPtr (unmarshalBase p t) (goTypeOf t) item with
@@ -395,7 +395,7 @@ def unmarshalUdtMap (p : Nat) : List String → List CqlTy → Bytes → LRes (L
 def unmarshalUdtStruct (p : Nat) : List String → List CqlTy → List String → List GoTy → Bytes → List GoVal → LRes (List GoVal)
   | name :: names, t :: ts, fnames, gs, data, acc =>
     if data = [] then .ok acc data
-    else if data.length < 4 then .err
+    else if shorter data 4 then .err
     else (match readBytesM data with
      | none => .crash
      | some (item, r) =>
